@@ -26,6 +26,14 @@ def foldH {α : Type} (h : State → α → HRes) : State → List α → HRes
     | some _ => r
     | none => let r' := foldH h r.s as; ⟨r'.s, r.effs ++ r'.effs, r'.panic⟩
 
+/-- the refund of an expired request (its failure is ignored by the end blocker), then deactivation -/
+def refundExpired (s1 : State) (e1 : List Effect) (x : Ctx) (q : Req) (r : ReqId) : HRes :=
+  match bankSend s1.bank s1.cfg.escrow x.cons q.fee with
+  | some bank' =>
+    ⟨delActive { s1 with bank := bank' } x.svc q.prov q.expH r,
+     e1 ++ (if q.fee = 0 then [] else [Effect.transfer s1.cfg.escrow x.cons q.fee]), none⟩
+  | none => ⟨delActive s1 x.svc q.prov q.expH r, e1 ++ [Effect.xferFail s1.cfg.escrow x.cons q.fee], none⟩
+
 /-- `expiredRequestHandler`: slash and refund (errors ignored) unless super mode, then deactivate -/
 def expireReq (x : Ctx) (s : State) (r : ReqId) : HRes :=
   match Map.get s.reqs r with
@@ -35,14 +43,8 @@ def expireReq (x : Ctx) (s : State) (r : ReqId) : HRes :=
     else
       match slash s r x.svc q.prov with
       | .overflow => ⟨s, [], some "Int overflow"⟩
-      | sl =>
-        let (s1, e1) := match sl with
-          | .done s1 e1 => (s1, e1)
-          | _ => (s, [])
-        let (s2, e2) := match bankSend s1.bank s1.cfg.escrow x.cons q.fee with
-          | some bank' => ({ s1 with bank := bank' }, if q.fee = 0 then [] else [Effect.transfer s1.cfg.escrow x.cons q.fee])
-          | none => (s1, [Effect.xferFail s1.cfg.escrow x.cons q.fee])
-        ⟨delActive s2 x.svc q.prov q.expH r, e1 ++ e2, none⟩
+      | .bankErr => refundExpired s [] x q r
+      | .done s1 e1 => refundExpired s1 e1 x q r
 
 /-- `CleanBatch`: remove every request record of the batch and the response stored under the same id -/
 def cleanBatch (s : State) (c : CtxId) (batch : Nat) : State :=
@@ -50,33 +52,36 @@ def cleanBatch (s : State) (c : CtxId) (batch : Nat) : State :=
   { s with reqs := ids.foldl (fun m r => Map.del m r) s.reqs,
            resps := ids.foldl (fun m r => Map.del m r) s.resps }
 
+/-- first half of `expiredRequestBatchHandler`: settle what is still pending and complete the batch
+    (nothing to do when the batch was already completed by its responses) -/
+def expirePending (s : State) (c : CtxId) (x : Ctx) : HRes × Ctx :=
+  if x.bstate ≠ .completed then
+    let r := foldH (expireReq x) s (sortReqIds (s.activeI.filter (fun r => r.ctx = c ∧ r.batch = x.batch)))
+    (⟨r.s, r.effs ++ (completeBatch r.s c x).2, r.panic⟩, (completeBatch r.s c x).1)
+  else (HRes.pure s, x)
+
+/-- second half: drop the expiry entry, store the context, remove it or queue its next batch, clean the batch -/
+def expireTail (s : State) (c : CtxId) (x1 : Ctx) : State × List Effect :=
+  let s1 := setCtx (delExpQ s c s.height) c x1
+  match x1.state with
+  | .completed => (cleanBatch (delCtx s1 c) c x1.batch, [.ev "complete_context" c])
+  | .running =>
+    if x1.rep ∧ (x1.total < 0 ∨ (x1.batch : Int) < x1.total) then
+      (cleanBatch (addNewQ s1 c (s.height - x1.timeout + x1.freq)) c x1.batch, [])
+    else (cleanBatch (delCtx s1 c) c x1.batch, [.ev "complete_context" c])
+  | .paused => (cleanBatch s1 c x1.batch, [])
+
 /-- `expiredRequestBatchHandler` -/
 def expireBatch (s : State) (c : CtxId) : HRes :=
   if (s.height, c) ∉ s.expQ then HRes.pure s
   else match Map.get s.ctxs c with
   | none => HRes.pure (delExpQ s c s.height)       -- unreachable
   | some x =>
-    let r1 : HRes × Ctx :=
-      if x.bstate ≠ .completed then
-        let ids := sortReqIds (s.activeI.filter (fun r => r.ctx = c ∧ r.batch = x.batch))
-        let r := foldH (expireReq x) s ids
-        let (x', e) := completeBatch r.s c x
-        (⟨r.s, r.effs ++ e, r.panic⟩, x')
-      else (HRes.pure s, x)
-    match r1.1.panic with
-    | some _ => r1.1
+    match (expirePending s c x).1.panic with
+    | some _ => (expirePending s c x).1
     | none =>
-      let x1 := r1.2
-      let s1 := setCtx (delExpQ r1.1.s c s.height) c x1
-      let (s2, e2) : State × List Effect :=
-        match x1.state with
-        | .completed => (delCtx s1 c, [.ev "complete_context" c])
-        | .running =>
-          if x1.rep ∧ (x1.total < 0 ∨ (x1.batch : Int) < x1.total) then
-            (addNewQ s1 c (s.height - x1.timeout + x1.freq), [])
-          else (delCtx s1 c, [.ev "complete_context" c])
-        | .paused => (s1, [])
-      ⟨cleanBatch s2 c x1.batch, r1.1.effs ++ e2, none⟩
+      ⟨(expireTail (expirePending s c x).1.s c (expirePending s c x).2).1,
+       (expirePending s c x).1.effs ++ (expireTail (expirePending s c x).1.s c (expirePending s c x).2).2, none⟩
 
 /-- `FilterServiceProviders`: eligible providers in order, with their prices -/
 def eligible (s : State) (x : Ctx) : List (Addr × Nat) :=
